@@ -78,7 +78,9 @@ def handle (args : List String) : String :=
     | "biasgelu" => biasGelu (g "approx" == "qtanh") (pShapeD (g "a")) (pShapeD (g "b"))
     | "softmax" => softmax (pNat (g "dt")) (pNat (g "up")) (pNat (g "down")) (pOptInt (g "axis"))
     | "fmm" =>
-      fmm { kind := g "kind", rank := pNat (g "rank"), inner := pFAttrs (g "inner"),
+      fmm { kind := g "kind", rank := pNat (g "rank"),
+            xRank := (if g "xrank" == "absent" then pNat (g "rank") else pNat (g "xrank")),
+            yRank := (if g "yrank" == "absent" then pNat (g "rank") else pNat (g "yrank")), inner := pFAttrs (g "inner"),
             perm := pOptInts (g "perm"), cstConst := pBool (g "cst_const"),
             cstShape := (pInts (g "cst_shape")).map Int.toNat, cst := pFloat (g "cst") }
     | "rope" =>
@@ -114,10 +116,13 @@ def handle (args : List String) : String :=
              h := pNat (g "h"), hkv := pNat (g "hkv"), il := pInt (g "il"), sl := pInts (g "sl"),
              axisOk := pBool (g "axis_ok") }
     | "mhab" =>
-      mhab { qm := pShapeD (g "qm"), km := pShapeD (g "km"), vm := pShapeD (g "vm"), qbias := pShapeD (g "qbias"),
+      mhab { qm := pShapeD (g "qm"), km := pShapeD (g "km"), vm := pShapeD (g "vm"), qbias := pShapeD (g "qbias"), qmul := pShapeD (g "qmul"),
              dt := pNat (g "dt"), qb := pBool (g "qb"), kb := pBool (g "kb"), vb := pBool (g "vb"),
              biasFirst := pBool (g "bias_first"), heads := pNat (g "heads"), pre := pOptFloat (g "pre"),
              preConst := pBool (g "pre_const"), ascale := pOptFloat (g "ascale"), mask := pBool (g "mask") }
+    | "pipe" =>
+      pipe { qm := pShapeD (g "qm"), heads := pNat (g "heads"), qProj := g "q_proj", kb := pBool (g "kb"),
+             vb := pBool (g "vb"), s := pFloat (g "s"), sdpaScale := pOptFloat (g "sdpa_scale"), mask := pBool (g "mask") }
     | _ => "ERR:family"
 
 end OV.Drivers.C19
